@@ -47,6 +47,76 @@ def _totuple(x):
     return x
 
 
+def annotated_edit_scenarios(only=None):
+    """Edits of a node whose inputs and output all carry sharding annotations, with every pattern of equal / distinct
+    value names among them: an edit that raises must leave everything as it was (and an edit that is valid on the
+    un-annotated node is valid here too). Yields (key, text, detail) per violation and (None, n_cases, None) at the end."""
+    import itertools
+
+    import onnx_ir as ir
+
+    from mc.snapshot import Registry, diff, snapshot
+
+    edits = ["replace_input_0", "replace_input_1", "replace_input_0_none", "resize_inputs_1", "resize_outputs_2", "rauw_x", "rauw_w", "remove_safe_consumer_first"]
+    n = 0
+    for names in itertools.product(("p", "q"), repeat=3):
+        for configs in (1, 2):
+            for ei, edit in enumerate(edits):
+                if only is not None and only != [list(names), configs, edit]:
+                    continue
+                n += 1
+                F = ir.TensorType(ir.DataType.FLOAT)
+                x = ir.Value(name="x", type=F, shape=ir.Shape([2, 2]))
+                w = ir.Value(name="w", type=F, shape=ir.Shape([2, 2]))
+                spare = ir.Value(name="spare", type=F, shape=ir.Shape([2, 2]))
+                n0 = ir.Node("", "Add", [x, w], name="n0")
+                a = n0.outputs[0]
+                a.name, a.type, a.shape = "a", F, ir.Shape([2, 2])
+                n1 = ir.Node("", "Relu", [a], name="n1")
+                n1.outputs[0].name = "b"
+                g = ir.Graph([x, w, spare], [n1.outputs[0]], nodes=[n0, n1], name="g", opset_imports={"": 21})
+                model = ir.Model(g, ir_version=11)
+                cfgs = [model.add_device_configuration(f"cfg{k}", num_devices=2) for k in range(configs)]
+                for c in cfgs:
+                    for v in (x, w, a):
+                        n0.shard(v, configuration=c, axis=0, num_shards=2)
+                x.name, w.name, a.name = names  # names are the user's business: equal names are legal in the IR
+                if edit == "remove_safe_consumer_first":
+                    g.outputs.clear()
+                    g.remove(n1, safe=True)
+                reg = Registry()
+                roots = [model.graph, spare, n1]
+                before = snapshot(roots, reg)
+                try:
+                    if edit == "replace_input_0":
+                        n0.replace_input_with(0, spare)
+                    elif edit == "replace_input_1":
+                        n0.replace_input_with(1, spare)
+                    elif edit == "replace_input_0_none":
+                        n0.replace_input_with(0, None)
+                    elif edit == "resize_inputs_1":
+                        n0.resize_inputs(1)
+                    elif edit == "resize_outputs_2":
+                        n0.resize_outputs(2)
+                    elif edit == "rauw_x":
+                        x.replace_all_uses_with(spare)
+                    elif edit == "rauw_w":
+                        w.replace_all_uses_with(spare)
+                    else:
+                        g.remove(n0, safe=True)
+                    exc = None
+                except Exception as e:  # noqa: BLE001
+                    exc = e
+                if exc is None:
+                    continue
+                detail = [list(names), configs, edit]
+                after = snapshot(roots, reg)
+                d = diff(before, {k: v for k, v in after.items() if k in before})
+                if d:
+                    yield (f"annotated_node|{edit}|{type(exc).__name__}|state_changed", f"{edit} on a node whose sharded values are named {names} raised {type(exc).__name__}: {str(exc)[:80]} and changed {[x_[:2] for x_ in d[:3]]}", detail)
+    yield (None, n, None)
+
+
 def run(pid: str, tier: str) -> int:
     which = "c01" if pid == "C01" else "c06"
     plans = PLANS[tier]
@@ -116,7 +186,15 @@ def run(pid: str, tier: str) -> int:
         nontrivial += res.raising if which == "c06" else res.transitions - res.raising
         if stopped_early:
             break
+    ann_cases = 0
+    if which == "c06":
+        for key, what, detail in annotated_edit_scenarios():
+            if key is None:
+                ann_cases += what
+                continue
+            r.violation(key, what, {"engine": "E1-scenario", "oracle": "c06", "annotated_edit": detail, "detail": what})
     r.coverage.update({
+        "annotated_node_edit_cases": ann_cases,
         "states": total_states,
         "transitions": total_trans,
         "traces_validated_against_impl": total_trans,
@@ -147,6 +225,9 @@ def run(pid: str, tier: str) -> int:
 
 
 def replay(obj):
+    if obj.get("annotated_edit"):
+        hits = [x for x in annotated_edit_scenarios(only=obj["annotated_edit"]) if x[0] is not None]
+        return (not hits), [x[1] for x in hits]
     from mc.explore import transition as tr
 
     which = obj["oracle"]
